@@ -9,6 +9,8 @@ import Golib.Proof.C10Refine
 import Golib.Proof.C10SyncRefine
 import Golib.Proof.C10Large
 import Golib.Proof.C10Copy
+import Golib.Proof.C10C01
+import Golib.Gen.FactsC10
 
 namespace Golib.C10
 
@@ -317,6 +319,53 @@ example :
       pure (v, ok)) = some ((1 : Int), true) := by
   decide +kernel
 
+/-! ## The sequential model IS C01's per-access machine run by one thread -/
+
+/-- `c10_sync_is_c01_single_thread`: for every ring state `r` (with `mask = cap − 1` and
+`head < 2^32`, which every canonical state has — last conjunct), each call of C10's
+one-step model equals C01's machine (`Golib.C01.step`, ONE shared-memory access per step:
+load tail, load seq, compare, CAS, write value, store seq; load head, load seq, compare,
+CAS, read value, clear value, store seq) run by a single thread until the call returns:
+same final shared state (`embed`), same return value, a Go panic on the same inputs.  So
+C10's and C01's models are the same object, and everything C01 proves about the access
+structure (and its source-order facts) is about C10's model too. -/
+theorem c10_sync_is_c01_single_thread (r : SyncRing) (hm : r.mask = r.cap - 1) (hh : r.head < two32) :
+    (∀ v, (r.push v = none → (soloCall (cfgOf r) 6 (embed r (.pushLoadTail v))).2 = some .panic) ∧
+      ∀ r' ok, r.push v = some (r', ok) →
+        soloCall (cfgOf r) 6 (embed r (.pushLoadTail v)) = (embed r' .idle, some (.push ok))) ∧
+    ((r.pop = none → (soloCall (cfgOf r) 7 (embed r .popLoadHead)).2 = some .panic) ∧
+      ∀ r' x ok, r.pop = some (r', x, ok) →
+        soloCall (cfgOf r) 7 (embed r .popLoadHead) = (embed r' .idle, some (.pop x ok))) ∧
+    soloCall (cfgOf r) 2 (embed r .lenLoadTail) = (embed r .idle, some (.len r.len)) ∧
+    soloCall (cfgOf r) 2 (embed r .emptyLoadHead) = (embed r .idle, some (.isEmpty r.isEmpty)) ∧
+    soloCall (cfgOf r) 2 (embed r .fullLoadTail) = (embed r .idle, some (.isFull r.isFull)) ∧
+    (∀ c H q, (mkSync c H q).mask = (mkSync c H q).cap - 1 ∧ (mkSync c H q).head < two32) :=
+  ⟨fun v => solo_push r v hm, solo_pop r hm, solo_len r hh, solo_isEmpty r, solo_isFull r hh,
+   fun c H q => ⟨rfl, Nat.mod_lt _ (by decide)⟩⟩
+
+/-- The accesses that machine performs for C10's rings are, in order, the shared-memory
+accesses found in the SOURCE of `Push`, `Pop`, `Len`, `IsEmpty`, `IsFull`
+(`Gen/FactsC10.lean`, regenerated from ringz/sync.go on every C10 run): a reordering of the
+accesses in the code breaks this theorem although no sequential result changes. -/
+theorem c10_sync_source_order :
+    C01.soloSrc (cfgOf ring2) (embed ring2 (.pushLoadTail 5)) 8 = Gen.C10.pushOps ∧
+    C01.soloSrc (cfgOf ring2one) (embed ring2one .popLoadHead) 9 = Gen.C10.popOps ∧
+    C01.soloSrc (cfgOf ring2) (embed ring2 .lenLoadTail) 4 = Gen.C10.lenOps ∧
+    C01.soloSrc (cfgOf ring2) (embed ring2 .emptyLoadHead) 4 = Gen.C10.isEmptyOps ∧
+    C01.soloSrc (cfgOf ring2) (embed ring2 .fullLoadTail) 4 = Gen.C10.isFullOps := by
+  refine ⟨by decide +kernel, by decide +kernel, by decide +kernel, by decide +kernel, by decide +kernel⟩
+
+/-- `ring2` / `ring2one` are what `NewSync(2)` and then `Push(7)` produce. -/
+example : SyncRing.init? 2 = some ring2 ∧ ring2.push 7 = some (ring2one, true) := by
+  constructor <;> decide +kernel
+
+/-- Non-vacuity: on the ring of capacity 2 holding one element, six accesses of one thread
+pop it, and the result is C10's `pop`. -/
+example : soloCall (cfgOf ring2one) 7 (embed ring2one .popLoadHead)
+    = ((ring2one.pop).map fun (r', x, ok) => (embed r' .idle, some (C01.Ret.pop x ok))).getD
+        (embed ring2one .idle, none) := by
+  decide +kernel
+
 /-- From `NewSync(n)`: every history of a fresh SyncRing is a history of the bounded FIFO
 whose capacity is the least power of two ≥ max 2 n. -/
 theorem c10_sync_refines_new (n : Int) (h1 : 1 ≤ n) (h2 : n ≤ 2 ^ 31) (ops : List SOp) :
@@ -325,6 +374,25 @@ theorem c10_sync_refines_new (n : Int) (h1 : 1 ≤ n) (h2 : n ≤ 2 ^ 31) (ops :
   obtain ⟨c, e, g, _, hinit⟩ := init_mk n h1 (by omega)
   obtain ⟨H', q', hrun, _, _⟩ := sync_run_refines g ops 0 [] (by simp)
   exact ⟨_, c, _, hinit, rfl, hrun⟩
+
+/-- ... and the same from a ring whose counters were advanced by `k` honest pairs (`warp k`,
+any `k`): this and `c10_sync_refines_new` are what the `syncS` driver instantiates when it
+answers cases on rings of up to 2^24 slots with the spec of capacity `syncCap n`. -/
+theorem c10_sync_refines_warped (n : Int) (h1 : 1 ≤ n) (h2 : n ≤ 2 ^ 31) (k : Nat) (ops : List SOp) :
+    ∃ r c r', SyncRing.init? n = some r ∧ syncCap n = some c ∧
+      (r.warp k).run ops = some (r', ((⟨[], c⟩ : BQ).run (ops.map SOp.toOp)).2) := by
+  obtain ⟨c, e, g, _, hinit⟩ := init_mk n h1 (by omega)
+  have hc : 0 < c := by have := g.bounds; omega
+  obtain ⟨H', q', hrun, _, _⟩ := sync_run_refines g ops k [] (by simp)
+  have hcap : syncCap n = some c := by
+    simp only [SyncRing.init?] at hinit
+    cases hs : syncCap n with
+    | none => simp [hs] at hinit
+    | some c' =>
+      simp only [hs, Option.some.injEq] at hinit
+      have : c' = c := by have := congrArg SyncRing.cap hinit; simpa [mkSync] using this
+      rw [this]
+  exact ⟨_, c, _, hinit, hcap, by rw [warp_mk c k hc]; exact hrun⟩
 
 /-- `warp k` (what the harness does to a fresh ring through reflect+unsafe) is exactly
 the state `k` honest push/pop pairs lead to, for every `k` (beyond 2^32 included) and
